@@ -44,7 +44,7 @@ def run (args : List String) : String :=
   | "gen.objects" :: _ => "ok"   -- object references are not modelled: decided by the scenario's oracle alone
   | "gen.objectsx" :: _ => "known-weakness"
   | "gen.pkgx" :: _ => "known-weakness"
-  | "gen.call" :: _ :: _ :: retH :: parH :: toks =>
+  | "gen.call" :: _ :: _ :: retH :: parH :: toks | "gen.callheld" :: _ :: _ :: retH :: parH :: toks =>
     match sigOfHex parH with
     | none => "bad-op"
     | some pt =>
